@@ -500,3 +500,33 @@ Print Assumptions c06_redirect_te_gzip_flow.
 Print Assumptions c06_redirect_te_http10_flow.
 Print Assumptions c06_dev_nontext_te_redirect.
 Print Assumptions c06_code_for_response.
+
+(* ================================================================== the framing decision's code itself (whole functions translated from the source) *)
+(** [theories/Gen2.v] is regenerated on every run by tools/rs2coq2.py from src/body.rs ([BodyReader::for_response] and
+    [header_defined], complete: the digit test and the checked parse of Content-Length, the split of Transfer-Encoding at commas,
+    the trim, the case-insensitive comparison of src/util.rs with its loop, the HTTP/1.0 clause, the precedence of chunked over a
+    length, and the status / method table) with the header lookup as a function parameter.  proofs/Gen2_equiv_framing.v proves the
+    translation EQUAL to the model's [for_response] / [header_defined], which c06_mode_spec above proves equal to the statement's
+    rule: the framing theorems of this file are therefore statements about the code as it is in the repository now
+    (trusted: the translator).  A change of any clause of the rule changes Gen2.v and this equality no longer holds. *)
+From Hoot Require Import GenLib Gen2.
+From Hoot.proofs Require Import Gen2_equiv_framing.
+Theorem c06_code_compare_lowercase : forall a l, gen_compare_lowercase_ascii a l = cmp_lower a l.
+Proof. exact gen_compare_lowercase_ascii_eq. Qed.
+Theorem c06_code_header_defined : forall http10 lk,
+  gen_br_header_defined http10 lk = header_defined http10 (lk (s2b "content-length")) (lk (s2b "transfer-encoding")).
+Proof. exact gen_br_header_defined_eq. Qed.
+Theorem c06_code_for_response_whole : forall http10 m status lk,
+  gen_br_for_response http10 m status lk
+  = for_response http10 (method_eqb m HEAD) (method_eqb m CONNECT) status (lk (s2b "content-length")) (lk (s2b "transfer-encoding")).
+Proof. exact gen_br_for_response_eq. Qed.
+Example c06_code_nonvacuous :
+  gen_br_for_response false GET 200 (fun n => if beq_bytes n (s2b "transfer-encoding") then Some (s2b "gzip, Chunked") else
+                                              if beq_bytes n (s2b "content-length") then Some (s2b "5") else None) = Ok (RChunked DSize)
+  /\ gen_br_for_response true GET 200 (fun n => if beq_bytes n (s2b "transfer-encoding") then Some (s2b "chunked") else None) = Ok RClose
+  /\ gen_br_for_response false GET 200 (fun n => if beq_bytes n (s2b "content-length") then Some (s2b "+5") else None) = Err BadContentLengthHeader.
+Proof. vm_compute. repeat split; reflexivity. Qed.
+Print Assumptions c06_code_compare_lowercase.
+Print Assumptions c06_code_header_defined.
+Print Assumptions c06_code_for_response_whole.
+Print Assumptions c06_code_nonvacuous.
